@@ -4,6 +4,7 @@ import Norad.Spec.DSVocab
 import Norad.Generated.Vocab
 import Norad.Lemmas.C05
 import Norad.Lemmas.C05Bridge
+import Norad.Lemmas.C05Doc
 import Norad.Props.C02
 /-!
 # C05 — files are UFO 3 as an independent implementation reads and writes it
@@ -341,6 +342,24 @@ theorem norad_parser_reads_spec_writer {rd : Str → Option Nat} {rdr : Render} 
    fun cps _ hv => norad_parses_spec_unicode hc cps hv,
    fun cid hi => norad_parses_spec_contour_attrs seen cid hi,
    fun _ hn => norad_parses_spec_glyph_attrs hn⟩
+
+/-- **norad's parser reads a WHOLE document of the specification-level writer** (`Ufo3.specWrite` itself, not a
+variant: every attribute spelt out, also the defaults `type="offcurve"`, `smooth="no"`, all six coefficients, both
+advance attributes; its own attribute and element order).  `eventsOf rl (specWrite rdr d)` is the canonical event list
+of the written tree; `gdocOf libD d` is the document of the glif builder's generative grammar (`Lemmas/GlifGen.lean`)
+describing the same glyph, and `Glif.interp nc` of it the glyph it describes.  The proof shows that every event of
+`specWrite` makes the parser do the same thing, in every format-2 state, as the grammar's rendering of the same object
+with a norad-style spelling `F` that reads back (`StepSame`, `body_same`), and concludes with
+`Glif.legal_accepted_gdoc`.  Hypotheses: a valid glyph name; `DescOK` (numbers in the codec's domain, valid names, colours
+in 0..1 that survive three decimals, coefficients and advance the encoder's gates would not alter); the described
+document is legal in the glif builder's sense (`Glif.LegalItems`: identifiers valid and pairwise different, contours
+`C11.accepts`-legal, angle/name/code-point rules); the lib element's text is a dictionary; both codecs. -/
+theorem norad_parser_reads_spec_document {F : Fmt} {rd : Str → Option Nat} {rdr : Render} {nc : Color → Color}
+    {ok : Nat → Prop} (hF : Codec F rd nc ok) (hP : ParseCodec rd rdr ok) (rl : String → LibV) (libD : Dict) (d : GlyphD)
+    (hn : validName (L d.name) = true) (hv : DescOK ok nc d) (hl : ∀ t, d.lib = some t → rl t = .dict libD)
+    (hL : LegalItems ok (itemsOf libD d)) :
+    parseGlif rd (eventsOf rl (specWrite rdr d)) = loadObjectLibs (interp nc (gdocOf libD d)) :=
+  parse_specWrite hF hP rl libD d hn hv hl hL
 
 /-! non-vacuity of the two codec hypotheses (the glif builder's `F0`, `R0`, `nc0`, `ok0`: every number is 0) -/
 
